@@ -48,11 +48,19 @@ def run(tier):
                       'return a fresh list; _is_pointless_expression(e) implies e contains no function node (recursive spec, '
                       'recursion by contract), and the non-call arms of evaluate_expression make no host call and no store, so '
                       'deleting a pointless statement changes nothing; determinism: no nondeterministic callee, output order only '
-                      'through lists and sorted(keys). NOT decided: exactness of the unknown/unused/redefined label and variable '
-                      'warnings (needs invariants tying the warning list to definition/use counts).')
+                      'through lists and sorted(keys). Label warnings, one-step specifications '
+                      '(induction over the loops is a meta-theorem): the label maps are empty at the head of every scope, each '
+                      'statement adds exactly the label it defines / jumps to, a label statement warns iff it redefines, the '
+                      'reporting loops warn for exactly the names missing from the other map and name them; the assignment/use '
+                      'scans start from empty maps in every scope. The use scan is complete: every name an '
+                      'expression reads (variable nodes and called function names, recursive spec USED) is recorded, the statement '
+                      'scan records every name read by an expression statement, a conditional jump or a return, and the unused-'
+                      'variable loop warns for exactly the assigned names absent from that map — so a reported unused variable is '
+                      'read nowhere in its scope. NOT decided: unused-argument and used-before-assignment index arithmetic.')
     pr.assumptions += RUNTIME_ASSUMPTIONS + [
         'the typing of lint\'s working containers at the ten loop heads (its own dicts map names to ints, warnings is its own list) is assumed, not proved',
         'sorted(d.keys()) returns keys of d (assumed contract)',
     ]
-    pr.not_proved.append('exactness of label/variable/argument warnings (unknown-label set = jumps without definition in scope, etc.): not under contract')
+    pr.not_proved.append('unused-argument warnings (set bookkeeping of the argument loop) and the index comparison of used-before-assignment: not under contract')
+    pr.not_proved.append('label-warning exactness over whole scopes: composition of the proved one-step specifications by induction over the loops is a meta-theorem; sorted(d.keys()) enumerating every key exactly once is assumed')
     return pr
